@@ -51,7 +51,6 @@ def showPErr : PErr → String
 
 def showAErr : ApplyErr → String
   | .conflict n => s!"E:Conflict:{n}"
-  | .exhausted => "E:Exhausted"
 
 def showHLine : HLine → String
   | .ctx l => "c" ++ toHex l
@@ -109,6 +108,10 @@ def handle : List String → String
     | some ls => match parsePatch ls with
       | .ok hs => let s := stats hs; s!"{s.1} {s.2.1} {s.2.2}"
       | .error e => showPErr e
+    | none => "bad-op"
+  | ["splitnl", d] =>
+    match fromHex d with
+    | some d => showBL (splitNL d)
     | none => "bad-op"
   | ["apply", orig, ls] =>
     match parseBL orig, parseBL ls with
